@@ -23,7 +23,7 @@ else
   # a private copy of the Lean project (with its build output): the generated tables of the changed tree must not
   # replace those of /repo under a check that runs at the same time
   lc="/tmp/seedlean-$id-$$"
-  cp -a "$here/lean" "$lc" && export VERIF_LEAN_DIR="$lc"
+  cp -a "${VERIF_LEAN_SRC:-$here/lean}" "$lc" && export VERIF_LEAN_DIR="$lc"     # VERIF_LEAN_SRC: a pristine built copy to start from
   trap 'git -C /repo worktree remove --force "$wt" >/dev/null 2>&1; rm -rf "$lc"' EXIT
 fi
 for c in "$@"; do
